@@ -687,6 +687,152 @@ pub fn apply<T>(mut b: ArrowReaderBuilder<T>, f: &TestFile, cfg: &ScanCfg) -> Ar
     b.with_batch_size(cfg.bs)
 }
 
+
+// ------------------------------------------------- whole-page skip coverage
+
+/// A layout with small data pages (2..4 rows, exact: write batch 1), an offset
+/// index and several row groups: selections can skip whole pages.
+pub fn gap_layout(rng: &mut Rng, max_rows: usize) -> Layout {
+    let n = 24 + rng.below(max_rows.saturating_sub(23).max(1));
+    let mut l = random_layout(rng, max_rows);
+    l.n = n;
+    l.rg_rows = *rng.pick(&[n, 40, 24, 17, 11]);
+    l.page_rows = 2 + rng.below(3);
+    l.write_batch = 1;
+    l.s_page_bytes = if rng.chance(25) { Some(40) } else { None };
+    l.offset_index = true;
+    l.writes = vec![(n, false)];
+    l
+}
+
+pub fn sel_bits(s: &SelSpec) -> Vec<bool> {
+    match s {
+        SelSpec::Runs(r) => r.iter().flat_map(|(n, skip)| std::iter::repeat(!*skip).take(*n)).collect(),
+        SelSpec::Mask(b) => b.clone(),
+        SelSpec::Filters(p) => p.concat(),
+    }
+}
+
+/// A selection over the rows of all row groups built page by page (pages of the
+/// id column): pages fully selected, partly selected (head, tail, alternate
+/// rows) and runs of 1..3 wholly skipped pages, so that skipped runs cover
+/// exactly one page, several pages, and a page plus part of its neighbours.
+pub fn gap_selection(rng: &mut Rng, f: &TestFile) -> SelSpec {
+    let mut bits: Vec<bool> = vec![];
+    for (g, rows) in f.rg_rows.iter().enumerate() {
+        let firsts: Vec<usize> = f.page_firsts(g, 0).map(|v| v.iter().map(|x| *x as usize).collect()).unwrap_or_else(|| vec![0]);
+        let mut skip_left = 0usize;
+        for (pi, st) in firsts.iter().enumerate() {
+            let en = firsts.get(pi + 1).copied().unwrap_or(*rows);
+            let len = en - st;
+            if skip_left > 0 {
+                skip_left -= 1;
+                bits.extend(std::iter::repeat(false).take(len));
+                continue;
+            }
+            match rng.below(10) {
+                0 | 1 | 2 => {
+                    // a run of whole pages is skipped (this one and skip_left more)
+                    skip_left = *rng.pick(&[0usize, 0, 1, 2]);
+                    bits.extend(std::iter::repeat(false).take(len));
+                }
+                3 | 4 | 5 => bits.extend(std::iter::repeat(true).take(len)),
+                6 => {
+                    // head selected: the skip after it is a page and a part
+                    let k = 1 + rng.below(len.max(2) - 1);
+                    bits.extend((0..len).map(|i| i < k));
+                }
+                7 => {
+                    let k = 1 + rng.below(len.max(2) - 1);
+                    bits.extend((0..len).map(|i| i >= k));
+                }
+                8 => bits.extend((0..len).map(|i| i % 2 == 0)),
+                _ => bits.extend((0..len).map(|_| rng.chance(50))),
+            }
+        }
+    }
+    match rng.below(4) {
+        0 => SelSpec::Mask(bits),
+        1 => SelSpec::Filters(vec![bits]),
+        _ => SelSpec::Runs(bits_to_runs(rng, &bits)),
+    }
+}
+
+/// every selection policy x every batch size 1..5 on page-gap selections, page index on
+pub fn gap_cfgs(rng: &mut Rng, f: &TestFile) -> Vec<ScanCfg> {
+    let mut out = vec![];
+    // Selectors, Mask, Auto resolving to Mask, Auto with the default threshold, policy not set
+    for policy in [Some(0usize), Some(1), Some(2 + 1000), Some(2 + 32), None] {
+        for bs in 1..=5usize {
+            let mut proj: Vec<usize> = [0usize, 1, 3, 5, 8].into_iter().filter(|_| rng.chance(45)).collect();
+            if proj.is_empty() {
+                proj.push(*rng.pick(&[0usize, 1, 3, 8]));
+            }
+            if rng.chance(20) {
+                proj.push(*rng.pick(&[2usize, 4, 9]));
+                proj.sort();
+            }
+            let mut c = ScanCfg {
+                proj,
+                proj_style: 0,
+                rgs: None,
+                sel: Some(gap_selection(rng, f)),
+                preds: vec![],
+                offset: None,
+                limit: None,
+                bs,
+                policy,
+                page_index: f.has_offset_index,
+                cache: None,
+            };
+            if rng.chance(25) {
+                c.preds.push(random_pred(rng, f.n));
+            }
+            if rng.chance(15) {
+                c.offset = Some(rng.below(6));
+            }
+            if rng.chance(15) {
+                c.limit = Some(3 + rng.below(f.n));
+            }
+            out.push(c);
+        }
+    }
+    out
+}
+
+/// number of data pages of projected leaves that the row selection skips
+/// entirely, in row groups where it selects something (informational)
+pub fn whole_page_skips(f: &TestFile, cfg: &ScanCfg) -> usize {
+    let Some(sel) = &cfg.sel else { return 0 };
+    let bits = sel_bits(sel);
+    let mut at = 0usize;
+    let mut n = 0usize;
+    for g in cfg.chosen(f) {
+        let rows = f.rg_rows[g];
+        let part: Vec<bool> = (at..at + rows).map(|i| bits.get(i).copied().unwrap_or(false)).collect();
+        at += rows;
+        if !part.iter().any(|b| *b) {
+            continue;
+        }
+        for leaf in leaves_of(&cfg.proj) {
+            let Some(firsts) = f.page_firsts(g, leaf) else { continue };
+            for (pi, st) in firsts.iter().enumerate() {
+                let en = firsts.get(pi + 1).map(|x| *x as usize).unwrap_or(rows);
+                if !part[*st as usize..en].iter().any(|b| *b) {
+                    n += 1;
+                }
+            }
+        }
+    }
+    n
+}
+
+/// the configuration exercises mask execution over sparse pages: page index
+/// loaded, Mask (or Auto / default) policy, at least one wholly skipped page
+pub fn is_mask_gap(f: &TestFile, cfg: &ScanCfg) -> bool {
+    cfg.page_index && cfg.policy != Some(0) && whole_page_skips(f, cfg) > 0
+}
+
 // ------------------------------------------------------------- projection
 
 fn bits_json(b: &[bool]) -> Value {
@@ -733,6 +879,7 @@ pub fn cfg_fields(f: &TestFile, cfg: &ScanCfg, m: &mut serde_json::Map<String, V
     m.insert("pidx".into(), json!(cfg.page_index));
     m.insert("cache".into(), json!(cfg.cache.map(|x| x as i64).unwrap_or(-1)));
     m.insert("file".into(), json!(f.describe()));
+    m.insert("pgskip".into(), json!(whole_page_skips(f, cfg)));
 }
 
 /// accumulates the batches a front-end returns
